@@ -122,7 +122,7 @@ func erasureOracle(cx *CheckCtx, runs []*CaseRun, prop string, sampleN int) []Fi
 	var jobs []job
 	var multi []*CaseRun
 	for _, cr := range runs {
-		if cr.BuildPanic != "" || cr.Case.ModelText != "" || hasMultiDictQual(cr.Case) || hasEqualKeyTexts(cr.Case) {
+		if cr.BuildPanic != "" || cr.Case.ModelText != "" || dictRegistersInMapOrder(cr.Case) || hasEqualKeyTexts(cr.Case) {
 			continue
 		}
 		n := len(cr.Real)
